@@ -17,7 +17,7 @@ RULE = ('(a) for every type, every multiset of child names of size <=K (quick 3,
         'accepted arrangement (decided by an exact DP on the DFA), fed in every distinct permutation: all adds must '
         'succeed, get_children(ordered) must equal the unique arrangement with same-named children in insertion '
         'order, to_string must return that order; plus Hypothesis-drawn larger unique multisets with sampled '
-        'permutations.  (b) add-only histories in arbitrary order: a symbol that is rejected must have been '
+        'permutations.  (b) add-only histories in arbitrary order (plus, for every symbol, add twice / remove both / add again): a symbol that is rejected must have been '
         'uncompletable together with the held children (oracle: completable(held+symbol) false).  Non-trivial: (a) '
         'the permutation has >=1 inversion across different names, (b) a rejection of an alphabet symbol occurred; '
         'distinct by (element, sequence).')
@@ -135,6 +135,9 @@ def execute_b(el, ops):
     if run.e is None:
         return run, None
     for op in ops:
+        if op[0] == 'remove':
+            run.apply(op)          # (part of the history only; what a removal must restore is C11's subject)
+            continue
         f = step_b(run, op[1])
         if f:
             return run, f
@@ -182,6 +185,16 @@ def run_shard(ctx, shard, acc):
             # the types of the open finding KF-M-compatible-child-rejected are explored over their FULL alphabet:
             # inside that bound the finding is an exact list of (held children, refused child)
             syms = s.alphabet(t) if t in FULL_ALPHABET_TYPES else symbol_subset(t, 6 if ctx.quick else 8)
+            # an element that was filled and emptied again takes every child an empty element takes
+            if t not in FULL_ALPHABET_TYPES:
+                for a in syms:
+                    run, f = execute_b(els[0], [['add', a], ['add', a], ['remove', 0], ['remove', 0], ['add', a]])
+                    if run.e is None:
+                        break
+                    acc.case({'element': run.el, 'ops': run.ops}, 'rejection' in run.flags, 5)
+                    acc.count('refill-after-emptying')
+                    if f:
+                        acc.fail(f, raise_=False)
             for n in (2, 3) if t not in FULL_ALPHABET_TYPES else (2, 3, 4):
                 for combo in itertools.product(syms, repeat=n):
                     run, f = execute_b(els[0], [['add', a] for a in combo])
